@@ -8,9 +8,15 @@ var $getStackDepth = () => {
 };
 
 var $panicStackDepth = null, $panicValue;
+// Set while the stack unwinds (by `throw null`) from the point where a panic was recovered to the function whose
+// deferred call recovered it: a panic whose deferred calls were running on the way raised that panic and is superseded.
+var $recoveredUnwind = false;
 var $callDeferred = (deferred, jsErr, fromPanic) => {
     if (!fromPanic && deferred !== null && $curGoroutine.deferStack.indexOf(deferred) == -1) {
         throw jsErr;
+    }
+    if (!fromPanic) {
+        $recoveredUnwind = false; /* the unwinding, if any, ends in this function */
     }
     if (jsErr !== null) {
         var newErr = null;
@@ -35,6 +41,7 @@ var $callDeferred = (deferred, jsErr, fromPanic) => {
         $panicStackDepth = $getStackDepth();
         $panicValue = localPanicValue;
     }
+    var superseded = false;
 
     try {
         while (true) {
@@ -80,6 +87,7 @@ var $callDeferred = (deferred, jsErr, fromPanic) => {
             if (localPanicValue !== undefined && $panicStackDepth === null) {
                 /* error was recovered */
                 if (fromPanic) {
+                    $recoveredUnwind = true;
                     throw null;
                 }
                 return;
@@ -88,6 +96,11 @@ var $callDeferred = (deferred, jsErr, fromPanic) => {
     } catch (e) {
         // Deferred function threw a JavaScript exception or tries to unwind stack
         // to the point where a panic was handled.
+        if (e === null && $recoveredUnwind) {
+            // A deferred call of this panic raised another panic, which has been
+            // recovered further up: this panic was replaced by it and is gone.
+            superseded = true;
+        }
         if (fromPanic) {
             // Re-throw the exception to reach deferral execution call at the end
             // of the function.
@@ -99,7 +112,7 @@ var $callDeferred = (deferred, jsErr, fromPanic) => {
         $callDeferred(deferred, e, fromPanic);
     } finally {
         if (localPanicValue !== undefined) {
-            if ($panicStackDepth !== null) {
+            if ($panicStackDepth !== null && !superseded) {
                 $curGoroutine.panicStack.push(localPanicValue);
             }
             $panicStackDepth = outerPanicStackDepth;
